@@ -379,6 +379,17 @@ def search(hints, tier, rng):
             wit.append(w)
     if len(wit) >= 5:
         return wit[:5]
+    # elementary leaves far out in their tails, at a TIGHT tolerance (3 orders above float64 rounding): a "large-input fast path"
+    # (e.g. softplus^-1(y) := y for y > 20) is wrong by ~exp(-y), far below the generic tolerance used for whole trees
+    for obj, desc, toks, pts in [(B.SoftPlus(), "P:P", ["P"], [20.5, 22.0, 25.0, 30.0, 33.5, -20.5, -30.0]),
+                                 (B.Exp(), "E:E", ["E"], [20.5, -20.5, 30.0]),
+                                 (B.LeakyTanh(3.0), "K:K 3", ["K", f2b(3.0)], [20.5, -20.5, 2.999999, 3.000001])]:
+        for w in roundtrip_violations(obj, desc, pts, eps=1e-13):
+            w["tokens"] = toks
+            w["eps"] = 1e-13
+            wit.append(w)
+            if len(wit) >= 5:
+                return wit
     for obj, desc, bnd, toks in leaf_zoo(rng, 150 if tier == "quick" else 1000):
         inputs = list(dict.fromkeys([float(v) for v in bnd] + fj.generic_inputs(rng, 3)))
         # Exp/Tanh/SoftPlus have restricted codomains: only probe the forward direction's law plus in-range inverses
@@ -428,5 +439,5 @@ def replay(w):
         import random
         return bool(search({}, "quick", random.Random(0)))
     obj = rebuild(w["tokens"])
-    v = roundtrip_violations(obj, w["tree"], [w["x"]])
+    v = roundtrip_violations(obj, w["tree"], [w["x"]], eps=w.get("eps", 1e-10))
     return bool(v)
